@@ -11,8 +11,10 @@ import (
 func Select(list List, limit int, selector func(Doc) (bool, bool)) List {
 	// prepare result
 	var result List
-	if limit > 0 {
+	if limit > 0 && limit <= len(list) {
 		result = make(List, 0, limit)
+	} else if limit > 0 {
+		result = make(List, 0, len(list))
 	}
 
 	// select documents
